@@ -17,3 +17,51 @@ func scanner(r io.Reader) *bufio.Scanner { return bufio.NewScanner(r) }
 
 // unlimited is fine: ReadBytes grows its result as needed
 func unlimited(r *bufio.Reader) ([]byte, error) { return r.ReadBytes('\n') }
+
+// buffered takes "nothing buffered" for the end of the input
+func buffered(r *bufio.Reader) bool { return r.Buffered() == 0 }
+
+// chunkedKept reads a long line in pieces but keeps the first piece, a view of
+// the reader's buffer, while reading on
+func chunkedKept(r *bufio.Reader) ([]byte, error) {
+	line, err := r.ReadSlice('\n')
+	for err == bufio.ErrBufferFull {
+		var more []byte
+		more, err = r.ReadSlice('\n')
+		line = append(line, more...)
+	}
+	return append([]byte{}, line...), err
+}
+
+// chunkedCopied copies every piece before reading on
+func chunkedCopied(r *bufio.Reader) ([]byte, error) {
+	var line []byte
+	piece, err := r.ReadSlice('\n')
+	line = append(line, piece...)
+	for err == bufio.ErrBufferFull {
+		piece, err = r.ReadSlice('\n')
+		line = append(line, piece...)
+	}
+	return line, err
+}
+
+type tok struct{ text []byte }
+
+// stored keeps the view in a field
+func stored(r *bufio.Reader, t *tok) error {
+	piece, err := r.ReadSlice('\n')
+	for err == bufio.ErrBufferFull {
+		piece, err = r.ReadSlice('\n')
+	}
+	t.text = piece
+	return err
+}
+
+// peekFirst only looks at the view
+func peekFirst(r *bufio.Reader) (byte, error) {
+	p, err := r.Peek(1)
+	if err != nil {
+		return 0, err
+	}
+	return p[0], nil
+}
